@@ -36,6 +36,7 @@ type Violation struct {
 	Kind   string `json:"kind"`
 	Replay string `json:"replay"`
 	Msg    string `json:"msg"`
+	Hang   bool   `json:"hang,omitempty"` // suspected non-termination: the driver re-runs it alone before reporting
 }
 
 // KnownHit is a failure recognised as a listed known finding.
@@ -323,6 +324,47 @@ func (c *Ctx) Inconclusive(msg string) {
 	c.mu.Unlock()
 }
 
+// HangPrefix starts the error text of a suspected non-termination.
+const HangPrefix = "no return within "
+
+// HangLimit is the in-process watchdog limit (VERIF_HANG_LIMIT seconds, default 20).
+func HangLimit() time.Duration {
+	return time.Duration(envInt("VERIF_HANG_LIMIT", 20)) * time.Second
+}
+
+var hangSeen atomicBool
+
+type atomicBool struct {
+	mu sync.Mutex
+	v  bool
+}
+
+func (a *atomicBool) set()      { a.mu.Lock(); a.v = true; a.mu.Unlock() }
+func (a *atomicBool) get() bool { a.mu.Lock(); defer a.mu.Unlock(); return a.v }
+
+// Aborted reports whether a call hung in this process; the leaked goroutine
+// keeps a core busy, so the remaining work of the process is skipped.
+func Aborted() bool { return hangSeen.get() }
+
+// Watch runs f (which must be self-contained: it may keep running after Watch
+// returns) and reports an error starting with HangPrefix if it has not
+// returned within HangLimit(). Panics inside f are converted to errors.
+func Watch(what string, f func() error) error {
+	if hangSeen.get() {
+		return nil
+	}
+	done := make(chan error, 1)
+	go func() { done <- Safe(f) }()
+	lim := HangLimit()
+	select {
+	case err := <-done:
+		return err
+	case <-time.After(lim):
+		hangSeen.set()
+		return fmt.Errorf("%s%v: %s", HangPrefix, lim, what)
+	}
+}
+
 // Safe runs f converting a panic into an error.
 func Safe(f func() error) (err error) {
 	defer func() {
@@ -385,6 +427,9 @@ func (c *Ctx) Eval(kind string, v any) error {
 	if fn == nil {
 		panic("hx: unregistered kind " + kind)
 	}
+	if Aborted() {
+		return nil // a call hung earlier in this process: stop exploring (and stop shrinking)
+	}
 	e := Safe(func() error { return fn(raw) })
 	if e == nil {
 		return nil
@@ -445,7 +490,7 @@ func (c *Ctx) FailCase(sub, kind string, raw json.RawMessage, msg string) {
 		msg = msg[:600]
 	}
 	c.mu.Lock()
-	c.P.Violations = append(c.P.Violations, Violation{Sub: sub, Kind: kind, Replay: path, Msg: msg})
+	c.P.Violations = append(c.P.Violations, Violation{Sub: sub, Kind: kind, Replay: path, Msg: msg, Hang: strings.Contains(msg, HangPrefix)})
 	c.stopSub[sub] = true
 	c.mu.Unlock()
 }
@@ -499,6 +544,9 @@ func (c *Ctx) Enum(sub, kind string, v any, shrink func(v any) []any) bool {
 
 // Stopped reports whether sub already has a violation.
 func (c *Ctx) Stopped(sub string) bool {
+	if Aborted() {
+		return true
+	}
 	c.mu.Lock()
 	defer c.mu.Unlock()
 	return c.stopSub[sub]
@@ -677,7 +725,7 @@ func Main(t *testing.T, property string, setup func(c *Ctx), run func(c *Ctx)) {
 			if len(msg) > 600 {
 				msg = msg[:600]
 			}
-			c.P.Violations = append(c.P.Violations, Violation{Sub: "replay", Replay: p, Msg: msg})
+			c.P.Violations = append(c.P.Violations, Violation{Sub: "replay", Replay: p, Msg: msg, Hang: strings.Contains(msg, HangPrefix)})
 		}
 		c.P.Evaluations = 1
 		c.Finish()
